@@ -22,6 +22,9 @@ fn model_p(i: &[u8]) -> IResult<&[u8], (u8, usize)> {
     if i[0] & 0x80 != 0 {
         return Err(Err::Error(Error::new(i, ErrorKind::Tag)));
     }
+    if i[0] & 0x40 != 0 {
+        return Err(Err::Failure(Error::new(i, ErrorKind::Tag)));
+    }
     let l = (i[0] & 3) as usize;
     if i.len() < 1 + l {
         return Err(Err::Incomplete(Needed::new(1 + l - i.len())));
@@ -29,13 +32,16 @@ fn model_p(i: &[u8]) -> IResult<&[u8], (u8, usize)> {
     Ok((&i[1 + l..], (i[0], l)))
 }
 
-fn ref_prefix(b: &[u8]) -> (usize, usize) {
-    // (number of elements, offset of the first element that fails or is incomplete)
+fn ref_prefix(b: &[u8]) -> (usize, usize, bool) {
+    // (number of elements, offset of the first element that fails or is incomplete, that element is a Failure)
     let mut pos = 0;
     let mut k = 0;
     while pos < b.len() {
         if b[pos] & 0x80 != 0 {
             break;
+        }
+        if b[pos] & 0x40 != 0 {
+            return (k, pos, true);
         }
         let l = (b[pos] & 3) as usize;
         if b.len() - pos < 1 + l {
@@ -44,7 +50,7 @@ fn ref_prefix(b: &[u8]) -> (usize, usize) {
         pos += 1 + l;
         k += 1;
     }
-    (k, pos)
+    (k, pos, false)
 }
 
 #[kani::proof]
@@ -55,7 +61,15 @@ fn c16_lemma_many1_complete() {
     kani::assume(n <= 8);
     let b = &buf[..n];
     let r = ManuallyDrop::new(many1(complete(model_p))(b));
-    let (k, pos) = ref_prefix(b);
+    let (k, pos, failure) = ref_prefix(b);
+    if failure {
+        // nom semantics: a Failure of the element parser aborts the whole repetition, also after successes.
+        // Hence the multi-record property needs single-record parsers that never return Failure (checked
+        // by the record-framing harnesses that are part of this property's check).
+        vassert!(class(&r) == Class::Failure, "C16.lemma.many1.element_failure_aborts_everything");
+        vcover!(k >= 1, "C16.lemma.cover.failure_after_successes");
+        return;
+    }
     if k == 0 {
         vassert!(r.is_err() && class(&r) != Class::Incomplete, "C16.lemma.many1.fails_iff_first_element_does_not_parse");
         vcover!(n == 0, "C16.lemma.cover.empty");
@@ -85,8 +99,12 @@ fn c16_lemma_many0_complete() {
     kani::assume(n <= 8);
     let b = &buf[..n];
     let r = ManuallyDrop::new(many0(complete(model_p))(b));
-    let (k, pos) = ref_prefix(b);
-    vassert!(r.is_ok(), "C16.lemma.many0.never_fails");
+    let (k, pos, failure) = ref_prefix(b);
+    if failure {
+        vassert!(class(&r) == Class::Failure, "C16.lemma.many0.element_failure_aborts_everything");
+        return;
+    }
+    vassert!(r.is_ok(), "C16.lemma.many0.never_fails_without_element_failure");
     if let Ok((rem, v)) = &*r {
         vassert!(v.len() == k, "C16.lemma.many0.exactly_the_elements_that_parse");
         vassert!(is_sub(b, rem, pos, n - pos), "C16.lemma.many0.remainder_at_first_failing_or_incomplete_element");
@@ -155,14 +173,17 @@ fn c16_tls_parser_many_two_records() {
     let p: u8 = kani::any();
     let a: [u8; 2] = kani::any();
     let v: [u8; 2] = kani::any();
-    let buf = [0x14, v[0], v[1], 0, 1, p, 0x15, 3, 3, 0, 2, a[0], a[1]];
+    let l2: [u8; 2] = kani::any();
+    let buf = [0x14, v[0], v[1], 0, 1, p, 0x15, 3, 3, l2[0], l2[1], a[0], a[1]];
     let n: usize = kani::any();
     kani::assume(n <= 13);
     let b = &buf[..n];
     let r = ManuallyDrop::new(tp::tls_parser_many(b));
-    // what repeated single-record parsing gives (single-record behaviour: C02/C03)
+    // what repeated single-record parsing gives (single-record behaviour: C02/C03); the second record's
+    // declared length is symbolic: 2 = complete alert, 0/1 = no alert (rejected), > 2 = incomplete, > 16640 = TooLarge
     let first_ok = n >= 6 && p == 1;
-    let second_ok = first_ok && n == 13;
+    let second_ok = first_ok && n == 13 && be16(&l2, 0) == 2;
+    kani::assume(be16(&l2, 0) != 1 || n < 12);  // length 1 with 12+ bytes: alert cut short inside a complete record (C03)
     if !first_ok {
         vassert!(r.is_err(), "C16.many.fails_iff_first_record_does_not_parse");
         vassert!(class(&r) != Class::Incomplete, "C16.many.first_record_failure_is_an_error");
@@ -181,6 +202,7 @@ fn c16_tls_parser_many_two_records() {
                 vcover!(true, "C16.many.cover.two_records");
             } else {
                 vcover!(n > 6, "C16.many.cover.second_record_incomplete");
+                vcover!(n == 13 && be16(&l2, 0) > 16_640, "C16.many.cover.second_record_too_large");
             }
         }
     }
@@ -202,14 +224,16 @@ fn c16_dtls_records_two_records() {
     let p: u8 = kani::any();
     let a: [u8; 2] = kani::any();
     let s: u8 = kani::any();
+    let l2: [u8; 2] = kani::any();
     let buf = [0x14, 0xfe, 0xfd, 0, 1, 0, 0, 0, 0, 0, s, 0, 1, p,
-               0x15, 0xfe, 0xfd, 0, 1, 0, 0, 0, 0, 0, 9, 0, 2, a[0], a[1]];
+               0x15, 0xfe, 0xfd, 0, 1, 0, 0, 0, 0, 0, 9, l2[0], l2[1], a[0], a[1]];
     let n: usize = kani::any();
     kani::assume(n <= 29);
     let b = &buf[..n];
     let r = ManuallyDrop::new(tp::parse_dtls_plaintext_records(b));
     let first_ok = n >= 14 && p == 1;
-    let second_ok = first_ok && n == 29;
+    let second_ok = first_ok && n == 29 && be16(&l2, 0) == 2;
+    kani::assume(be16(&l2, 0) != 1 || n < 28);
     if !first_ok {
         vassert!(r.is_err() && class(&r) != Class::Incomplete, "C16.dtls.fails_iff_first_record_does_not_parse");
         vcover!(n >= 14, "C16.dtls.cover.first_record_malformed");
@@ -223,6 +247,7 @@ fn c16_dtls_records_two_records() {
             vassert!(recs[0].header.sequence_number == s as u64 && recs[0].messages.len() == 1, "C16.dtls.first_record_exact");
             vcover!(second_ok, "C16.dtls.cover.two_records");
             vcover!(!second_ok && n > 14, "C16.dtls.cover.second_record_incomplete");
+            vcover!(n == 29 && be16(&l2, 0) > 16_640, "C16.dtls.cover.second_record_too_large");
         }
     }
 }
